@@ -257,6 +257,13 @@ pub fn run_one(claim: Prop, tier: Tier, tape: Tape, stats: &mut Stats, env: &Env
 
 fn run_one_inner(claim: Prop, tier: Tier, tape: Tape, stats: &mut Stats, env: &Env) -> RunOutput {
     let mut ctx = Ctx { tape, claim, mode: claim, tier, stats, obs: crate::tape::FNV0, env };
+    // somebody listens to the log in a quarter of the runs (INFO; DEBUG and TRACE are rarer:
+    // the engine logs every node)
+    let level = *ctx.tape.pick(&[0u32, 0, 0, 0, 0, 0, 0, 0, 0, 0, 0, 0, 1, 1, 2, 3]);
+    let _listener = crate::trace::listen(level);
+    if level > 0 {
+        ctx.stats.bump(["", "runs.log-listener.info", "runs.log-listener.debug", "runs.log-listener.trace"][level as usize]);
+    }
     set_op(Op::Harness);
     clock::OVERRUN.with(|o| o.set(false));
     LAST_PANIC.with(|p| *p.borrow_mut() = None);
